@@ -209,7 +209,7 @@ OPTION_SETS = {
 def run_job(specs, seed, history, whitelist, unrelated, keep_text=False, sibling=None):
     d = explore.fresh_dir('c12')
     try:
-        job = {'specs': specs, 'history': history, 'outdir': d, 'whitelist': whitelist, 'unrelated': unrelated, 'keep_text': keep_text, 'sibling': sibling,
+        job = {'specs': specs, 'history': history, 'outdir': d, 'whitelist': whitelist, 'unrelated': unrelated, 'keep_text': keep_text, 'sibling': sibling, 'failing': FAILING,
                'args': OPTION_SETS['args'], 'pre_args': OPTION_SETS['pre_args']}
         env = dict(os.environ, PYTHONHASHSEED=str(seed), PYTHONDONTWRITEBYTECODE='1')
         p = subprocess.run([sys.executable, WORKER], input=json.dumps(job), capture_output=True, text=True, env=env, timeout=300)
@@ -222,6 +222,11 @@ def run_job(specs, seed, history, whitelist, unrelated, keep_text=False, sibling
 
 UNRELATED = [('zz.stone', 'namespace zz\nannotation OZ = Omitted("zeta")\nstruct Z\n    z String\n        @OZ\nunion ZU\n    a\n        @OZ\nroute zr(Z, ZU, Void)\n'),
              ('cfg.stone', CFG)]
+
+
+# accepted by the frontend; the Python / JavaScript / TypeScript backends stop with a route-name conflict after they have emitted the types
+FAILING = [('cfg.stone', CFG), ('aa.stone', 'namespace aa\nstruct Early\n    "doc :type:`Early`"\n    when Timestamp("%Y")?\n    many List(String)\n    m Map(String, Int32)?\n    u Eu = ea\nunion Eu\n    ea\n    eb Early\n'
+                                            'alias Ea = Early\nroute get_item(Early, Void, Void)\nroute get/item(Void, Early, Eu)\n')]
 
 
 def first_diff(ref, got):
@@ -302,9 +307,9 @@ def run(tier, seed):
     r.bounds['extra_seed_from_VERIF_SEED'] = extra_seed
     items = []
     for name, specs, wl in RICH:
-        items.append((name, specs, wl, all_seeds, ['fresh', 'after-unrelated', 'after-namesake', 'after-other-options', 'isolated', 'twice']))
+        items.append((name, specs, wl, all_seeds, ['fresh', 'after-unrelated', 'after-namesake', 'after-other-options', 'after-failed', 'isolated', 'twice']))
     # a pair of specs that share every name but differ in imports, owners and targets: each is generated after the other
-    items.append((REACH[0], REACH[1], None, all_seeds, ['fresh', 'after-sibling', 'after-namesake', 'isolated', 'twice'], REACH_SIBLING))
+    items.append((REACH[0], REACH[1], None, all_seeds, ['fresh', 'after-sibling', 'after-namesake', 'after-failed', 'isolated', 'twice'], REACH_SIBLING))
     items.append((REACH[0] + '-sibling', REACH_SIBLING, None, all_seeds[:3], ['fresh', 'after-sibling', 'after-namesake', 'twice'], REACH[1]))
     budget = 60 if tier == 'quick' else 400
     seen = set()
@@ -325,7 +330,7 @@ def run(tier, seed):
             items.append(('%s:%s' % (p.name, '/'.join(tr)), specs, None, all_seeds[:4] if tier == 'quick' else all_seeds,
                           (['fresh'] if tier == 'quick' else ['fresh', 'twice']) + (['after-sibling'] if sib else []), sib))
             nm += 1
-    r.bounds.update({'rich_specs': len(RICH), 'machine_models': nm, 'backends': list(impl.BACKEND_RUNS), 'histories': ['fresh', 'after-unrelated', 'after-namesake (the same spec under other namespace names first)', 'after-other-options (same spec, other backend options first)', 'isolated (each backend on its own freshly compiled Api instead of all backends on one Api)', 'twice (two output directories)', 'after-sibling (another spec with the same namespace / type names but different imports, owners and targets first; machine models: the previous model of the same profile)'], 'option_sets': OPTION_SETS})
+    r.bounds.update({'rich_specs': len(RICH), 'machine_models': nm, 'backends': list(impl.BACKEND_RUNS), 'histories': ['fresh', 'after-unrelated', 'after-namesake (the same spec under other namespace names first)', 'after-other-options (same spec, other backend options first)', 'isolated (each backend on its own freshly compiled Api instead of all backends on one Api)', 'twice (two output directories)', 'after-failed (a spec on which the backends stop half-way was generated first)', 'after-sibling (another spec with the same namespace / type names but different imports, owners and targets first; machine models: the previous model of the same profile)'], 'option_sets': OPTION_SETS})
     r.sample({'spec': RICH[0][0], 'files': [p for p, _ in RICH[0][1]], 'whitelist': RICH[0][2], 'seeds': all_seeds})
     r.run_tasks(task, items, budget=1800, chunksize=1)
     r.assumptions = ['object addresses are not controlled; the history dimension perturbs them', 'every run is a separate interpreter with its own PYTHONHASHSEED']
